@@ -437,9 +437,13 @@ class SectorHooks(Hooks):
                 s.merge = kwargs.get('merge_strategy', 'smallest-weight')
                 self.log.append(('construct', s, w))
                 return s
-            if func.name.startswith('ldpc') and last in ('BpOsdDecoder', 'bposd_decoder', 'BpDecoder'):
+            if func.name.startswith('ldpc') and last in ('BpOsdDecoder', 'bposd_decoder', 'BpDecoder', 'bp_decoder'):
                 H = args[0] if args else kwargs.get('pcm')
                 s = Solver('BpOsdDecoder', H, node, self._cb)
+                # plain belief propagation has no post-processing stage: when it does not converge its output does
+                # not satisfy the syndrome (the "complete decoder" clause rests on the OSD stage)
+                s.complete = last in ('BpOsdDecoder', 'bposd_decoder')
+                s.ctor = last
                 self.log.append(('construct', s, None))
                 return s
             n = np_name(func)
@@ -617,7 +621,9 @@ DECODER_CONFIGS = {
     'MatchingDecoder': [('error_type=None', True, {}), ("error_type='X'", True, {'error_type': 'X'}),
                         ("error_type='Z'", True, {'error_type': 'Z'})],
     'BeliefPropagationOSDDecoder': [('CSS', True, {}), ('CSS, channel_update', True, {'channel_update': True}),
-                                    ('non-CSS', False, {}), ('non-CSS, channel_update', False, {'channel_update': True})],
+                                    ('non-CSS', False, {}), ('non-CSS, channel_update', False, {'channel_update': True}),
+                                    # osd_order=0 is what the GUI and the example inputs use
+                                    ('CSS, osd_order=0', True, {'osd_order': 0}), ('non-CSS, osd_order=0', False, {'osd_order': 0})],
     'UnionFindDecoder': [('CSS', True, {})],
     'SweepMatchDecoder': [('CSS', True, {})],
     'RotatedSweepMatchDecoder': [('CSS', True, {})],
@@ -657,6 +663,12 @@ def _judge(name, cfg, site, v, log, n_init, kw) -> List[Fact]:
         okH = isinstance(H, CheckMat)
         out.append(Fact('matrix', name, cfg, site, f'{name} [{cfg}]: {s.kind} built on a check matrix of the code', okH,
                         f'{s.kind} constructed on {H!r}', key=f'{name}|{cfg}|{s.kind}|matrix[{H!r}]', facts=repr(H)))
+        if s.kind == 'BpOsdDecoder':
+            out.append(Fact('matrix', name, cfg, site, f'{name} [{cfg}]: the ldpc decoder on {H!r} has an OSD stage (always returns '
+                                                       f'a correction with the given syndrome)', getattr(s, 'complete', True),
+                            f'constructed as ldpc.{getattr(s, "ctor", "?")}: plain BP returns its last iterate when it does not '
+                            f'converge, which need not reproduce the syndrome', key=f'{name}|{cfg}|complete[{H!r}]',
+                            facts=getattr(s, 'ctor', None)))
         if s.kind == 'Matching' and okH and H.rows in ('X', 'Z'):
             want = expected_weight(H.detects)
             given_weights = 'weights' in kw
